@@ -92,17 +92,14 @@ def run(prop_id, tier, replay=None):
     # ---- 3: correspondence + oracles on the real code -----------------------------------
     results = []
     try:
-        if replay:
-            results.append(P["replay"](replay))
-        else:
-            for stream in P["streams"]:
-                results.append(stream(tier))
+        for stream in P["streams"]:
+            results.append(stream(tier))
         for r in results:
             for m in r.mismatches[:20]:
                 out.broken.append({"kind": "correspondence", "name": r.name, "detail": m})
             out.violations += r.violations
         # ---- 4: search ------------------------------------------------------------------
-        if out.broken and not out.violations and not replay:
+        if out.broken and not out.violations:
             for stream in P.get("search", P["streams"]):
                 r = stream("search")
                 results.append(r)
@@ -129,13 +126,14 @@ def run(prop_id, tier, replay=None):
     rc = 0
     if fresh:
         path = os.path.join(C.REPLAYS, "%s-%s-%d.json" % (prop_id, tier, C.seed()))
-        C.write_json(path, {"property": prop_id, "violation": fresh[0], "more": fresh[1:5],
-                            "broken": out.broken[:10]})
+        C.write_json(path, {"property": prop_id, "tier": tier, "seed": C.seed(), "violation": fresh[0], "more": fresh[1:5],
+                            "broken": out.broken[:10],
+                            "replay": "deterministic: VERIF_SEED=%d harness/check.py %s --tier %s re-executes the same inputs / schedules" % (C.seed(), prop_id, tier)})
         print("VIOLATION property=%s replay=%s" % (prop_id, path))
         rc = 1
     elif out.broken and not (out.known and not [b for b in out.broken if b["kind"] != "correspondence"]):
         path = os.path.join(C.REPLAYS, "%s-%s-%d.json" % (prop_id, tier, C.seed()))
-        C.write_json(path, {"property": prop_id, "no_longer_checks": out.broken[:20],
+        C.write_json(path, {"property": prop_id, "tier": tier, "seed": C.seed(), "no_longer_checks": out.broken[:20],
                             "note": "proof obligation or model/code correspondence broken; the failing-input "
                                     "search on the real code found no input on which the property fails"})
         print("VIOLATION property=%s replay=%s no-failing-input-found" % (prop_id, path))
@@ -181,6 +179,16 @@ def main():
     ap.add_argument("--replay")
     a = ap.parse_args()
     tier = a.tier if a.tier in ("quick", "thorough") else "quick"
+    if a.replay:
+        # a replay file records the tier and seed of the run that produced it; every stream is a deterministic
+        # function of (tier, VERIF_SEED), so re-running with them re-executes the same inputs and schedules
+        try:
+            j = json.load(open(a.replay))
+            tier = j.get("tier", tier)
+            os.environ["VERIF_SEED"] = str(j.get("seed", 0))
+        except (OSError, ValueError) as e:
+            print("INFRASTRUCTURE ERROR: cannot read replay file: %s" % e, file=sys.stderr)
+            sys.exit(2)
     try:
         rc = run(a.prop, tier, a.replay)
     except C.Infra as e:
